@@ -136,7 +136,7 @@ def function_range(f: Expr, s: Symbol, lo: int, hi: int):
 def expr_replace(f: Expr, old: sympy.Function, new: Expr) -> Expr:
     return f.replace(
         lambda expr: expr.is_Function and expr.func == old,
-        lambda expr: new,
+        lambda expr: sympy.sympify(new),
     )
 
 
